@@ -2,7 +2,7 @@
 import itertools
 from .. import nf as N
 from .. import pw as P
-from ..interp import Interp, Arr, Num, Const, Obj, Unsupported, Raised, NONE, TRUE, FALSE
+from ..interp import Interp, Arr, Num, Const, Obj, Unsupported, Raised, NONE, TRUE, FALSE, explore
 from ..model import AnalysisError
 from spec import potentials as SPEC
 
@@ -33,8 +33,9 @@ def valuations(cls):
     return params, out or [{}]
 
 
-def run_potential(prog, cls, val, twice=False):
+def run_potential(prog, cls, val, twice=False, preset=()):
     ip = Interp(prog)
+    ip.preset = list(preset)
     params, _ = valuations(cls)
     kw = {}
     for p in params:
@@ -157,6 +158,61 @@ def rule_core(ctx, rule='R03.d'):
     ctx.floor(rule, n, 3, 'hard-core potentials')
 
 
+def rule_core_infinite(ctx, rule='R10.i'):
+    """high_value ranges over all floats, +infinity included (the genuinely hard core the parameter approximates): with
+    IEEE-754 rules for the symbol (0*inf, inf-inf are NaN) the tail outside sigma is still NaN-free and finite and the core is
+    +infinity.  `high_value*(r<=sigma)` equals `np.where(r>sigma,0,high_value)` for every finite value only."""
+    n = 0
+    for cls in potential_classes(ctx.prog):
+        if not any(c.name in SPEC.HARD_CORE_FAMILY for c in cls.mro()):
+            continue
+        init = cls.find_method('__init__')
+        if init is None or 'high_value' not in init.params:
+            continue
+        f = cls.find_method('calculate')
+        try:
+            ip = Interp(ctx.prog)
+            ip.inf_syms = frozenset(['high_value'])
+            kw = {}
+            for p in init.params:
+                if p != 'self':
+                    ip.declare(p)
+                    kw[p] = Num(N.sym(p))
+            ip.declare('r', 'curve')
+            o = ip.construct(cls, [], kw)
+            term = ip.call(ip.find_method(o, 'calculate'), [Arr(R, 'r', ip)], {}).t
+            fin = run_potential(ctx.prog, cls, {})['res'].t
+        except (Unsupported, Raised) as e:
+            ctx.undecided(rule, cls.qualname, 'high_value=+inf: %s' % e, f.loc())
+            continue
+        n += 1
+        has, at = _core_leaves(term, N.reg(R), N.reg(S))
+        hasf, atf = _core_leaves(fin, N.reg(R), N.reg(S))
+        bad = []
+        if not has or not hasf:
+            bad.append('no comparison of r with sigma defines a core')
+        else:
+            tail = at('gt')
+            syms = tail.symbols()
+            if 'NaN' in syms:
+                bad.append('outside the core the value is NaN (0*inf or inf-inf in the evaluation: %s)' % N.show(tail))
+            elif 'MaybeNaN' in syms:
+                ctx.undecided(rule, cls.qualname, 'high_value=+inf: cannot tell whether %s is NaN' % N.show(tail), f.loc())
+                continue
+            elif not tail.equals(atf('gt')):
+                bad.append('outside the core the value is %s for an infinite overlap value, %s for a finite one' % (
+                    N.show(tail), N.show(atf('gt'))))
+            for o_ in ('lt', 'eq'):
+                if not at(o_).equals(SPEC.high):
+                    bad.append('at r %s sigma the value is %s, not +infinity' % ({'lt': '<', 'eq': '=='}[o_], N.show(at(o_))))
+        if bad:
+            ctx.violation(rule, cls.qualname, 'infinite-core', 'high_value=+inf: ' + '; '.join(bad), f.loc())
+        else:
+            ctx.holds(rule, cls.qualname, 'with high_value=+inf (IEEE rules) the tail is the finite-value tail and the core is +inf',
+                      f.loc())
+    ctx.floor(rule, n, 3, 'hard-core potentials with a high_value parameter')
+
+
 def rule_cut_shift(ctx, rule='R10.k'):
     """LennardJones: exactly zero beyond r_cut; continuous at r_cut when shifted"""
     n = 0
@@ -238,12 +294,31 @@ def rule_purity(ctx, rule='R10.p'):
         params, vals = valuations(cls)
         for val in vals:
             try:
-                w = run_potential(ctx.prog, cls, val, twice=True)
+                def run(preset, cls=cls, val=val):
+                    w_ = run_potential(ctx.prog, cls, val, twice=True, preset=preset)
+                    return w_['ip'], w_
+                worlds = [w_ for d_, ip_, w_ in explore(run)]
             except (Unsupported, Raised) as e:
                 ctx.undecided(rule, cls.qualname, '%s: %s' % (_valname(val), e), f.loc())
                 continue
             n += 1
             bad = []
+            for w in worlds:
+                _purity_of(w, bad)
+            if bad:
+                ctx.violation(rule, cls.qualname, 'purity:' + _valname(val), '; '.join(sorted(set(bad))), f.loc())
+            else:
+                ctx.holds(rule, cls.qualname, '%s: r untouched, fresh result, pointwise, repeat evaluation identical'
+                          % _valname(val), f.loc(), key=_valname(val))
+    ctx.floor(rule, n, 8, 'potential purity obligations')
+
+
+def _purity_of(w, bad):
+    if True:
+        if True:
+            if isinstance(w['res'], Arr) and w['res'] is w['res2']:
+                bad.append('two evaluations return the same array object (a buffer kept on the potential): the array the caller '
+                           'got from the first evaluation is overwritten by the second')
             for e in w['events'] + w['events2']:
                 if e['kind'] == 'write':
                     bad.append('in-place write to %s at %s (%s)' % (e['target'], e['loc'], e.get('via')))
@@ -265,12 +340,6 @@ def rule_purity(ctx, rule='R10.p'):
                 for a in leaf.all_atoms():
                     if a[0] == 'fn' and a[1] not in ('log', 'sin', 'cos', 'abs'):
                         bad.append('non-pointwise operator %s' % N.show_atom(a))
-            if bad:
-                ctx.violation(rule, cls.qualname, 'purity:' + _valname(val), '; '.join(sorted(set(bad))), f.loc())
-            else:
-                ctx.holds(rule, cls.qualname, '%s: r untouched, fresh result, pointwise, repeat evaluation identical'
-                          % _valname(val), f.loc(), key=_valname(val))
-    ctx.floor(rule, n, 8, 'potential purity obligations')
 
 
 def rule_contact(ctx, rule='R10.t'):
